@@ -1,7 +1,9 @@
 ---------------------------- MODULE Trace_AEConfine ----------------------------
 (* C06, confinement level: THE JUDGE.  One record per (document, hole, via):
      {id, fmt, frags, hole, via, pt: {ctx, url, slot, kind, root}, outs: [{v, c, t, b, oc, out}, ...]}
-   (fmt = format of the template file: "HTML", "JS", "CSS", "JSON")
+   (fmt = format of the template file: "HTML", "JS", "CSS", "JSON", "MD"; records of documents with several
+   shows also carry holes: the boundaries of the other shows, whose value is always benign, and pt.prior:
+   what the renderer did before the judged show)
    outs[j].out is the document as REALLY rendered with dictionary value v (class c) shown at the hole,
    outs[outs[j].b].out the same document rendered with the benign value of the same Go type and shape
    ("x" for strings / Stringers / errors and for the leaves of slices, maps and structs; 1, -1, 1.5,
@@ -20,6 +22,17 @@
    shape, because a slice of two strings legitimately renders more tokens than one string; names
    are compared by class (the element names that switch the tokenizer, the attribute names that
    change how a value is interpreted, "other"), and the dictionary contains no such name.
+   Markdown files (fmt = "MD").  The property names the oracle: "the oracle tokenises the output with
+   standard HTML, JS, CSS, JSON and CommonMark parsers".  For a Markdown output the driver logs, next
+   to the rendered bytes, outs[j].html: the conversion of the output by a CommonMark converter
+   (goldmark without extensions, raw HTML kept), an observation like the output itself.  The
+   structure of a Markdown document is read off its conversion: Signature is computed, by the same
+   reference HTML tokenizer, on the conversion (emphasis, links, images, code spans, headings,
+   lists, block quotes, code blocks, thematic breaks, raw HTML are elements there).  Reading choice,
+   the same as C26's "with whitespace normalised as Markdown normalises it": how a TEXT is laid out
+   in lines and paragraphs is not structure, so the tags <p>, </p> and <br> of the conversion are
+   skipped (a value with a blank line makes two paragraphs of text; that is what a multi-line
+   value means in Markdown).  Every other element a value adds, removes or moves is a change.
    Skipped and counted, never failed (Appendix C.2): a value the real code refuses to build or show
    in this context (oc # "ok"); outputs whose benign rendering is already outside the reference
    (JavaScript with a raw newline inside a string literal, template nesting beyond the bound).
@@ -42,38 +55,66 @@ LcpAll(outs, a, j, m) == IF j > Len(outs) \/ m = 0 THEN m
 \* per record, in one pass over its benign entries (each signature is computed once):
 \*   ch = indices j whose output has another structure than their benign partner's,
 \*   un = number of benign entries whose own rendering is outside the reference
+\* ---- Markdown: the bytes that are tokenised are the CommonMark conversion without its p and br tags
+MdSkips == << <<60,112,62>>, <<60,47,112,62>>, <<60,98,114,62>>, <<60,98,114,32,47,62>>, <<60,98,114,47,62>> >>   \* <p> </p> <br> <br /> <br/>
+MdSkipAt(s, i) == LET S == {k \in 1..Len(MdSkips) : i + Len(MdSkips[k]) - 1 <= Len(s) /\ \A m \in 1..Len(MdSkips[k]) : s[i + m - 1] = MdSkips[k][m]}
+                  IN IF S = {} THEN 0 ELSE Len(MdSkips[CHOOSE k \in S : TRUE])
+\* CommonMark "does not mandate any particular treatment of the info string" of a fenced code block: the
+\* class="language-..." attribute a converter derives from it is not structure
+MdLang == <<32,99,108,97,115,115,61,34,108,97,110,103,117,97,103,101,45>>      \* ` class="language-`
+RECURSIVE MdQuoteEnd(_, _)
+MdQuoteEnd(s, i) == IF i > Len(s) \/ s[i] = 34 THEN i ELSE MdQuoteEnd(s, i + 1)
+MdLangAt(s, i) == i + Len(MdLang) - 1 <= Len(s) /\ \A m \in 1..Len(MdLang) : s[i + m - 1] = MdLang[m]
+RECURSIVE MdRun(_, _, _)
+MdRun(h, s, i) == IF i > Len(s) THEN h
+                  ELSE IF h.st = "data" /\ s[i] = 60 /\ MdSkipAt(s, i) > 0 THEN MdRun(h, s, i + MdSkipAt(s, i))
+                  ELSE IF h.st = "tagname" /\ s[i] = 32 /\ MdLangAt(s, i) THEN MdRun(h, s, MdQuoteEnd(s, i + Len(MdLang)) + 1)
+                  ELSE MdRun(HDo(h, s[i]), s, i + 1)
+MdSignature(s) == SigOfState(MdRun(H0, s, 1))
+
+\* a Markdown macro shown in a file of another format is converted (BuildOptions.MarkdownConverter) where it is
+\* shown: the same reading applies to the paragraphs the converter makes of its text
+MdVia(r) == r.via \in {"macro:markdown", "import:md"}
 Base(r) == LET oks == SelectSeq(r.outs, LAMBDA o : o.oc = "ok") IN
-           IF oks = <<>> THEN [p |-> 0, h |-> HInit(r.fmt)]
+           IF oks = <<>> \/ r.fmt = "MD" \/ MdVia(r) THEN [p |-> 0, h |-> HInit(r.fmt)]
            ELSE LET a == oks[1].out p == LcpAll(r.outs, a, 1, Len(a)) IN [p |-> p, h |-> HRunRange(HInit(r.fmt), a, 1, p)]
+\* the structure signature of one output of a record
+SigOut(r, base, o) == IF r.fmt = "MD" THEN MdSignature(o.html)
+                      ELSE IF MdVia(r) THEN SigOfState(MdRun(base.h, o.out, base.p + 1))
+                      ELSE SignatureFrom(base.h, base.p, o.out)
 BenignSeq(r) == SelectSeq([j \in 1..Len(r.outs) |-> j], LAMBDA j : r.outs[j].b = j /\ r.outs[j].oc = "ok")
+\* (TLC evaluates LET definitions and operator arguments again at every use; a value bound by a set
+\* constructor {e(x) : x \in {v}} is evaluated once: Bind1 picks the single element of such a set)
+Bind1(S) == CHOOSE x \in S : TRUE
+JudgeOne(r, base, b, sb, acc) ==
+  IF Undefined(sb) THEN [acc EXCEPT !.un = @ + 1]
+  ELSE [acc EXCEPT !.ch = @ \cup {j \in 1..Len(r.outs) : r.outs[j].b = b /\ j # b /\ r.outs[j].oc = "ok" /\ SigOut(r, base, r.outs[j]) # sb},
+                   !.cmp = @ + Cardinality({j \in 1..Len(r.outs) : r.outs[j].b = b /\ j # b /\ r.outs[j].oc = "ok" /\ r.outs[j].t = 0})]
 RECURSIVE Judge(_, _, _, _, _)
 Judge(r, base, bs, i, acc) ==
   IF i > Len(bs) THEN acc
-  ELSE LET b == bs[i]
-           sb == SignatureFrom(base.h, base.p, r.outs[b].out)
-       IN IF Undefined(sb) THEN Judge(r, base, bs, i + 1, [acc EXCEPT !.un = @ + 1])
-          ELSE Judge(r, base, bs, i + 1,
-                     [acc EXCEPT !.ch = @ \cup {j \in 1..Len(r.outs) : r.outs[j].b = b /\ j # b /\ r.outs[j].oc = "ok"
-                                                                        /\ SignatureFrom(base.h, base.p, r.outs[j].out) # sb},
-                                 !.cmp = @ + Cardinality({j \in 1..Len(r.outs) : r.outs[j].b = b /\ j # b /\ r.outs[j].oc = "ok" /\ r.outs[j].t = 0})])
-Judged(r) == Judge(r, Base(r), BenignSeq(r), 1, [ch |-> {}, un |-> 0, cmp |-> 0])
+  ELSE Judge(r, base, bs, i + 1, Bind1({JudgeOne(r, base, bs[i], sb, acc) : sb \in {SigOut(r, base, r.outs[bs[i]])}}))
+Judged(r) == Bind1({Judge(r, base, BenignSeq(r), 1, [ch |-> {}, un |-> 0, cmp |-> 0]) : base \in {Base(r)}})
 RecOk(r) == \A j \in Judged(r).ch : r.outs[j].t = 1
 
-Sig(r, j) == [fam |-> "autoescape", fmt |-> r.fmt, via |-> r.via, ctx |-> r.pt.ctx, url |-> r.pt.url, slot |-> r.pt.slot, kind |-> r.pt.kind,
-              root |-> r.pt.root, vclass |-> r.outs[j].c]
+\* Markdown files have no product exploration that names a root cause; the one desynchronisation that is named
+\* is the real lexer being inside an HTML tag where the label of the position (MC_AEMd) is not, or the reverse
+MdRoot(pt) == IF (pt.ctx \in {"Tag", "QuotedAttr", "UnquotedAttr"}) = (pt.kind \in {"tag-open", "tag-name", "attr-name", "attr-dq", "attr-sq", "attr-unq", "end-tag"})
+              THEN "none" ELSE "md-tag"
+Sig(r, j) == LET g == [fam |-> "autoescape", fmt |-> r.fmt, via |-> r.via, ctx |-> r.pt.ctx, url |-> r.pt.url, slot |-> r.pt.slot, kind |-> r.pt.kind,
+                       root |-> IF r.fmt = "MD" THEN MdRoot(r.pt) ELSE r.pt.root, vclass |-> r.outs[j].c]
+             IN IF "prior" \in DOMAIN r.pt THEN g @@ [prior |-> r.pt.prior] ELSE g
 
 RECURSIVE SetSeq(_)
 SetSeq(S) == IF S = {} THEN <<>> ELSE LET x == CHOOSE y \in S : \A z \in S : y <= z IN <<x>> \o SetSeq(S \ {x})
 \* one output line per record: its bad (value, signature) pairs and its counters
-LineOf(k) == LET r == Obs[k]
-                 g == Judged(r)
-                 bs == SetSeq({j \in g.ch : r.outs[j].t = 0})
-             IN [k |-> k, id |-> r.id,
-                 bad |-> [i \in 1..Len(bs) |-> [j |-> bs[i], v |-> r.outs[bs[i]].v, sig |-> Sig(r, bs[i])]],
-                 compared |-> g.cmp,
-                 notshown |-> Cardinality({j \in 1..Len(r.outs) : r.outs[j].oc # "ok"}),
-                 refundef |-> g.un,
-                 trustedchanged |-> Cardinality({j \in g.ch : r.outs[j].t = 1})]
+LineFrom(k, r, g, bs) == [k |-> k, id |-> r.id,
+                          bad |-> [i \in 1..Len(bs) |-> [j |-> bs[i], v |-> r.outs[bs[i]].v, sig |-> Sig(r, bs[i])]],
+                          compared |-> g.cmp,
+                          notshown |-> Cardinality({j \in 1..Len(r.outs) : r.outs[j].oc # "ok"}),
+                          refundef |-> g.un,
+                          trustedchanged |-> Cardinality({j \in g.ch : r.outs[j].t = 1})]
+LineOf(k) == Bind1({LineFrom(k, Obs[k], g, SetSeq({j \in g.ch : Obs[k].outs[j].t = 0})) : g \in {Judged(Obs[k])}})
 
 VARIABLES l
 Init == l = 1
